@@ -9,6 +9,9 @@ def find_doc(node):
     if isinstance(node, ast.Attribute) and node.attr == '__doc__':
         raise ValueError('__doc__ found!')
 
+    if isinstance(node, ast.Name) and node.id == '__doc__':
+        raise ValueError('__doc__ found!')
+
     for child in ast.iter_child_nodes(node):
         find_doc(child)
 
